@@ -1,4 +1,5 @@
 import Tea.Render.Program
+import Tea.Proofs.EnterAlt
 /-
 Helper lemmas for C12 / C05 / C17 (terminal modes).
 
@@ -187,18 +188,31 @@ def ROp.neutral : ROp → Bool
 theorem regROp_neutral (m : ModeReg) (op : ROp) (h : op.neutral = true) : regROp m op = m := by
   cases op <;> simp [ROp.neutral] at h <;> rfl
 
+theorem preAlt_nonMode (r : RState) : (preAlt r).2.all nonMode = true := by
+  rcases preAlt_cases r with h | h <;> rw [h]
+  · rfl
+  · exact flush_nonMode r
+
+/-- (unchanged by the render that now precedes the switch: it writes no mode) -/
 theorem enterAlt_sim (r : RState) (m : ModeReg) (h : TrackedM r m) :
     TrackedM (enterAlt r).1 { m with alt := true } ∧
     (enterAlt r).2.foldl regOp m = { m with alt := true } := by
   obtain ⟨ha, hb, hf, hc⟩ := h
-  cases m with
-  | mk alt cv a b c p f =>
-    simp only at ha hb hf hc
-    unfold enterAlt
-    cases hra : r.altActive
-    · cases cv <;>
-        simp_all [TrackedM, RState.repaint, regOp, setReg, cursorOp]
-    · simp_all [TrackedM]
+  cases hra : r.altActive
+  · obtain ⟨f1, _, _, _, _, _, _, f8, f9, f10, _, _⟩ := enterAlt_fields r hra
+    refine ⟨⟨f1, by rw [f9]; exact hb, by rw [f10]; exact hf, by rw [f8]; exact hc⟩, ?_⟩
+    rw [enterAlt_ops r hra, List.foldl_append, foldl_regOp_nonMode _ _ (preAlt_nonMode r)]
+    cases m with
+    | mk alt cv a b c p f =>
+      simp only at hc
+      cases cv <;> simp_all [switchOps, regOp, setReg, cursorOp]
+  · rw [enterAlt_active r hra]
+    cases m with
+    | mk alt cv a b c p f =>
+      simp only at ha
+      rw [hra] at ha
+      subst ha
+      exact ⟨⟨hra, hb, hf, hc⟩, rfl⟩
 
 theorem exitAlt_sim (r : RState) (m : ModeReg) (h : TrackedM r m) :
     TrackedM (exitAlt r).1 { m with alt := false } ∧
@@ -424,11 +438,13 @@ theorem step_staysAlt (r : RState) (op : ROp) (hne : op ≠ .exitAlt) :
   | flush => exact all_staysAlt_of_nonMode _ (flush_nonMode r)
   | stop => exact all_staysAlt_of_nonMode _ (stop_nonMode r)
   | enterAlt =>
-    simp only [step, enterAlt]
-    split
-    · rfl
-    · simp only [List.all_cons, List.all_nil, cursorOp_staysAlt]
+    show (enterAlt r).2.all staysAlt = true
+    cases hra : r.altActive
+    · rw [enterAlt_ops r hra, List.all_append, Bool.and_eq_true]
+      refine ⟨all_staysAlt_of_nonMode _ (preAlt_nonMode r), ?_⟩
+      simp only [switchOps, List.all_cons, List.all_nil, cursorOp_staysAlt]
       rfl
+    · rw [enterAlt_active r hra]; rfl
   | printLine body =>
     simp only [step]
     split <;> rfl
@@ -593,8 +609,10 @@ theorem restoreTerminal_cache (r : RState) (sv : Saved) (h : r.altActive = false
     (runOps r (restoreTerminalOps sv)).1.lastLines = none := by
   cases sv with
   | mk a b f =>
-    cases a <;> cases b <;> cases f <;>
-      simp [restoreTerminalOps, runOps, step, enterAlt, h, RState.repaint]
+    have e := enterAlt_fields (step r .hideCursor).1 h
+    cases a
+    · cases b <;> cases f <;> simp [restoreTerminalOps, runOps, step, RState.repaint]
+    · cases b <;> cases f <;> exact ⟨e.2.2.1, e.2.2.2.1⟩
 
 /-- one Exec: ReleaseTerminal (the external command then runs on the terminal in that state),
 RestoreTerminal -/
